@@ -24,7 +24,9 @@ import (
 	txsigning "github.com/cosmos/cosmos-sdk/types/tx/signing"
 	"github.com/cosmos/cosmos-sdk/x/auth/signing"
 	banktypes "github.com/cosmos/cosmos-sdk/x/bank/types"
+	palomaapp "github.com/palomachain/paloma/v2/app"
 	palomamempool "github.com/palomachain/paloma/v2/app/mempool"
+	pcommon "github.com/palomachain/paloma/v2/testutil/common"
 	"github.com/palomachain/paloma/v2/verifharness/emit"
 	consensustypes "github.com/palomachain/paloma/v2/x/consensus/types"
 	evmtypes "github.com/palomachain/paloma/v2/x/evm/types"
@@ -35,19 +37,35 @@ import (
 	protov2 "google.golang.org/protobuf/proto"
 )
 
+// a transaction with one or more signers (pubs[i] signs with sequence seqs[i]); the pool keys it by the FIRST
 type testTx struct {
 	msgs   []sdk.Msg
-	pub    cryptotypes.PubKey
-	seq    uint64
-	sender int // rank of the bech32 sender string
+	pubs   []cryptotypes.PubKey
+	seqs   []uint64
+	sender int    // rank of the first signer's bech32 string
+	seq    uint64 // = seqs[0]
 }
 
-func (t *testTx) GetMsgs() []sdk.Msg                       { return t.msgs }
-func (t *testTx) GetMsgsV2() ([]protov2.Message, error)    { return nil, nil }
-func (t *testTx) GetSigners() ([][]byte, error)            { return [][]byte{t.pub.Address()}, nil }
-func (t *testTx) GetPubKeys() ([]cryptotypes.PubKey, error) { return []cryptotypes.PubKey{t.pub}, nil }
+func (t *testTx) GetMsgs() []sdk.Msg                    { return t.msgs }
+func (t *testTx) GetMsgsV2() ([]protov2.Message, error) { return nil, nil }
+func (t *testTx) GetSigners() ([][]byte, error) {
+	var out [][]byte
+	for _, p := range t.pubs {
+		out = append(out, p.Address())
+	}
+	return out, nil
+}
+func (t *testTx) GetPubKeys() ([]cryptotypes.PubKey, error) { return t.pubs, nil }
 func (t *testTx) GetSignaturesV2() ([]txsigning.SignatureV2, error) {
-	return []txsigning.SignatureV2{{PubKey: t.pub, Sequence: t.seq}}, nil
+	var out []txsigning.SignatureV2
+	for i, p := range t.pubs {
+		out = append(out, txsigning.SignatureV2{PubKey: p, Sequence: t.seqs[i]})
+	}
+	return out, nil
+}
+
+func (e *env) mkTx(s int, n uint64) *testTx {
+	return &testTx{pubs: []cryptotypes.PubKey{e.pubs[s]}, seqs: []uint64{n}, sender: s, seq: n}
 }
 
 var (
@@ -94,6 +112,7 @@ type hist struct {
 	bigSel   bool
 	rejected bool
 	removed  bool
+	multiSig bool
 	lastSel  string // rendering of the previous op's Select output ("" if the previous op was not a Select)
 }
 
@@ -104,6 +123,12 @@ type env struct {
 	// class ranking oracle: lowest / highest real priority seen per class (0 consensus .. 3 valset, 4 = everything else below MaxInt64-3)
 	clsMin, clsMax [5]int64
 	clsSeen        [5]bool
+	// the message universe (registry_test.go)
+	kinds         []msgKind
+	byClass       [5][]int
+	nRegistered   int
+	classReported map[string]bool
+	app           *palomaapp.App
 }
 
 var classRank = map[string]int{"consensus": 0, "scheduler": 1, "evm": 2, "valset": 3}
@@ -111,10 +136,8 @@ var classRank = map[string]int{"consensus": 0, "scheduler": 1, "evm": 2, "valset
 // single-message consensus > scheduler > evm > valset > all others (whose CheckTx priority is below MaxInt64-3)
 func (e *env) classOracle(kinds []int, ante, prio int64, entry any) {
 	c := 4
-	if len(kinds) == 1 {
-		if r, ok := classRank[msgKinds[kinds[0]].name]; ok {
-			c = r
-		}
+	if len(kinds) == 1 && e.kinds[kinds[0]].cls >= 0 {
+		c = e.kinds[kinds[0]].cls
 	}
 	if c == 4 && ante >= math.MaxInt64-3 {
 		return
@@ -144,6 +167,7 @@ func newEnv(run *emit.Run) *env {
 		pub  cryptotypes.PubKey
 		addr string
 	}
+	pcommon.SetupPalomaPrefixes() // the node's bech32 prefixes (the priority index compares the sender STRINGS)
 	var ks []kp
 	for i := 0; i < 8; i++ {
 		pk := secp256k1.GenPrivKeyFromSecret([]byte{byte(i), 0xC1, 0x9}).PubKey()
@@ -151,10 +175,12 @@ func newEnv(run *emit.Run) *env {
 	}
 	// the priority index compares the bech32 sender strings
 	sort.Slice(ks, func(i, j int) bool { return strings.Compare(ks[i].addr, ks[j].addr) < 0 })
-	e := &env{run: run, prio: palomamempool.NewDefaultTxPriority()}
+	e := &env{run: run, prio: palomamempool.NewDefaultTxPriority(), classReported: map[string]bool{}}
 	for _, k := range ks {
 		e.pubs = append(e.pubs, k.pub)
 	}
+	e.app = newApp()
+	e.buildKinds(e.app)
 	return e
 }
 
@@ -179,11 +205,15 @@ func (h *hist) after(e *env, term string, entry any) {
 	}
 }
 
-func (h *hist) insert(e *env, s int, n uint64, kinds []int, ante int64) {
-	tx := &testTx{pub: e.pubs[s], seq: n, sender: s}
+func (h *hist) insert(e *env, s int, n uint64, kinds []int, ante int64, extra ...sn) {
+	tx := e.mkTx(s, n)
+	for _, x := range extra {
+		tx.pubs = append(tx.pubs, e.pubs[x.s])
+		tx.seqs = append(tx.seqs, x.n)
+	}
 	var urls []string
 	for _, k := range kinds {
-		m := msgKinds[k].mk()
+		m := e.kinds[k].mk()
 		tx.msgs = append(tx.msgs, m)
 		urls = append(urls, emit.Str(sdk.MsgTypeURL(m)))
 	}
@@ -200,16 +230,29 @@ func (h *hist) insert(e *env, s int, n uint64, kinds []int, ante int64) {
 	h.pend[sn{s, n}] = pendTx{tx, prio}
 	cls := "ante"
 	if len(kinds) == 1 {
-		cls = msgKinds[kinds[0]].name
+		cls = e.kinds[kinds[0]].name
+		e.run.Count("insert-url-source", e.kinds[kinds[0]].src)
 	}
 	e.run.Count("insert-class", cls)
 	e.classOracle(kinds, ante, prio, map[string]any{"kinds": kinds, "ante": ante, "priority": prio})
-	h.after(e, fmt.Sprintf("C19.CInsert %d %s %s %s %s", s, emit.ZU(n), emit.List(urls), emit.ZI(ante), emit.ZI(prio)),
-		map[string]any{"op": "insert", "sender": s, "nonce": n, "kinds": kinds, "ante": ante, "priority": prio})
+	if len(extra) == 0 {
+		h.after(e, fmt.Sprintf("C19.CInsert %d %s %s %s %s", s, emit.ZU(n), emit.List(urls), emit.ZI(ante), emit.ZI(prio)),
+			map[string]any{"op": "insert", "sender": s, "nonce": n, "kinds": kinds, "ante": ante, "priority": prio})
+		return
+	}
+	// several signers: the pool keys the transaction by the first one only
+	sig := []string{emit.Pair(emit.ZI(int64(s)), emit.ZU(n))}
+	for _, x := range extra {
+		sig = append(sig, emit.Pair(emit.ZI(int64(x.s)), emit.ZU(x.n)))
+	}
+	h.multiSig = true
+	e.run.Count("insert-signers", fmt.Sprint(len(sig)))
+	h.after(e, fmt.Sprintf("C19.CInsertM %s %s %s %s", emit.List(sig), emit.List(urls), emit.ZI(ante), emit.ZI(prio)),
+		map[string]any{"op": "insert", "sender": s, "nonce": n, "extra_signers": fmt.Sprint(extra), "kinds": kinds, "ante": ante, "priority": prio})
 }
 
 func (h *hist) remove(e *env, s int, n uint64) {
-	tx := &testTx{pub: e.pubs[s], seq: n, sender: s}
+	tx := e.mkTx(s, n)
 	err := h.mp.Remove(tx)
 	_, was := h.pend[sn{s, n}]
 	if h.premise && (err == nil) != was {
@@ -348,16 +391,23 @@ func (h *hist) finish(e *env, kind string) {
 var anteChoices = []int64{42, 42, 42, 42, 42, 0, 1, 2, 3, -5, math.MaxInt64, math.MaxInt64 - 1, math.MaxInt64 - 2, math.MaxInt64 - 3,
 	math.MaxInt64 - 4, math.MaxInt64 - 5, math.MinInt64 + 1, 1 << 40}
 
-func genKinds(r *rand.Rand) []int {
+func (e *env) genKinds(r *rand.Rand) []int {
 	switch x := r.Intn(20); {
-	case x < 9:
-		return []int{r.Intn(8)} // one prioritised message
-	case x < 15:
-		return []int{8 + r.Intn(3)} // one ordinary message
+	case x < 9: // one prioritised message: the fixed ones, or any registered / future message of the four packages
+		if r.Intn(3) != 0 {
+			return []int{r.Intn(8)}
+		}
+		c := e.byClass[r.Intn(4)]
+		return []int{c[r.Intn(len(c))]}
+	case x < 15: // one ordinary message: the fixed ones, or anything else the registry knows / a near-miss URL
+		if r.Intn(2) == 0 {
+			return []int{8 + r.Intn(3)}
+		}
+		return []int{e.byClass[4][r.Intn(len(e.byClass[4]))]}
 	case x < 16:
 		return nil
 	default:
-		return []int{r.Intn(len(msgKinds)), r.Intn(len(msgKinds))} // multi-message: ante priority
+		return []int{r.Intn(len(e.kinds)), r.Intn(len(e.kinds))} // multi-message: ante priority
 	}
 }
 
@@ -399,7 +449,7 @@ func (e *env) genHistory(hostile bool) {
 			if hostile && r.Intn(10) == 0 {
 				ante = math.MinInt64
 			}
-			h.insert(e, s, n, genKinds(r), ante)
+			h.insert(e, s, n, e.genKinds(r), ante)
 		case x < 72: // remove (mostly a pending one)
 			if len(h.pend) > 0 && r.Intn(5) != 0 {
 				keys := make([]sn, 0, len(h.pend))
@@ -473,6 +523,7 @@ func TestCorr(t *testing.T) {
 		"inserts and MinInt64 priorities (outside the premise: correspondence only). Compared per op: GetTxPriority, Remove outcome, full (sender,nonce) Select sequence, panic flag, CountTx. " +
 		"non-trivial = a Select yielded >=2 senders and the history has a successful or rejected Remove")
 	e := newEnv(run)
+	e.classSweep()
 	e.replayCorpus(t)
 	for i := 0; i < run.N; i++ {
 		e.genHistory(run.Rng.Intn(100) < 15)
